@@ -702,4 +702,202 @@ theorem postRead_v2 (d : List Nat) (t : PostT) (h : postRead d = some t) :
       · simp at h
 
 
+/-! ## `CharIter` against the C18 decoder (`NameStr.decodeString`) -/
+
+theorem bumpU16_val_drop (d : List Nat) (pos v p : Nat) (h : bumpU16 d pos = .val v p) :
+    ∃ a b, d.drop pos = a :: b :: d.drop (pos + 2) ∧ v = a * 256 + b ∧ p = pos + 2 := by
+  unfold bumpU16 at h
+  split at h
+  · simp at h
+  · split at h
+    · split at h
+      · rename_i a b hab
+        simp at h
+        refine ⟨a, b, ?_, by omega, by omega⟩
+        have := List.take_append_drop 2 (d.drop pos)
+        rw [hab, List.drop_drop] at this
+        simpa using this.symm
+      · simp at h
+    · simp at h
+
+theorem bumpU16_none_drop (d : List Nat) (pos : Nat) (h : bumpU16 d pos = .none) :
+    (d.drop pos).length < 2 := by
+  unfold bumpU16 at h
+  split at h
+  · simp at h
+  · split at h
+    · split at h <;> simp at h
+    · simp; omega
+
+theorem decodeUtf16_short (l : List Nat) (h : l.length < 2) : NameStr.decodeUtf16 l = [] := by
+  match l, h with
+  | [], _ => simp [NameStr.decodeUtf16]
+  | [_], _ => simp [NameStr.decodeUtf16]
+
+/-- the UTF-16BE `CharIter` yields exactly what the C18 model `NameStr.decodeUtf16` decodes -/
+theorem charRun_utf16 (d : List Nat) :
+    ∀ fuel pos evs, pos ≤ d.length → run (charStep .utf16be d) fuel pos = some evs → trapped evs = false →
+      items evs = NameStr.decodeUtf16 (d.drop pos) := by
+  intro fuel
+  induction fuel with
+  | zero => intro pos evs _ h; simp [run] at h
+  | succ f ih =>
+    intro pos evs hp h ht
+    unfold run at h
+    have hspec := charStep_spec .utf16be d pos hp
+    split at h
+    · -- done
+      rename_i s' hs
+      simp at h; subst h
+      simp only [items]
+      unfold charStep at hs
+      split at hs
+      · rw [List.drop_eq_nil_of_le (by omega)]; simp [NameStr.decodeUtf16]
+      · simp only [] at hs
+        cases hb : bumpU16 d pos with
+        | none => exact (decodeUtf16_short _ (bumpU16_none_drop d pos hb)).symm
+        | trap => simp [hb] at hs
+        | val c1 p1 =>
+          simp only [hb] at hs
+          split at hs
+          · cases hb2 : bumpU16 d p1 with
+            | none => simp [hb2] at hs
+            | trap => simp [hb2] at hs
+            | val c2 p2 =>
+              simp only [hb2] at hs
+              split at hs <;> simp at hs
+          · simp at hs
+    · -- trap
+      simp at h; subst h; simp [trapped] at ht
+    · -- cont
+      rename_i s' hs
+      exact absurd (by rw [hs]) hspec.2.2.1
+    · -- yield
+      rename_i a s' hs
+      cases hr : run (charStep .utf16be d) f s' with
+      | none => simp [hr] at h
+      | some r =>
+        simp [hr] at h; subst h
+        have hs'le : s' ≤ d.length := by have := hspec.1; rw [hs] at this; exact this
+        have ih' := ih s' r hs'le hr (by simpa [trapped] using ht)
+        simp only [items]
+        rw [ih']
+        unfold charStep at hs
+        split at hs
+        · simp at hs
+        · simp only [] at hs
+          cases hb : bumpU16 d pos with
+          | none => simp [hb] at hs
+          | trap => simp [hb] at hs
+          | val c1 p1 =>
+            obtain ⟨a1, b1, hd1, hv1, hp1⟩ := bumpU16_val_drop d pos c1 p1 hb
+            simp only [hb] at hs
+            rw [hd1]
+            split at hs
+            · rename_i hsur
+              cases hb2 : bumpU16 d p1 with
+              | trap => simp [hb2] at hs
+              | none =>
+                simp only [hb2] at hs
+                simp at hs
+                have hshort := bumpU16_none_drop d p1 hb2
+                rw [hp1] at hshort
+                obtain ⟨ha, hs2⟩ := hs
+                subst ha; subst hs2
+                rw [hp1, decodeUtf16_short _ hshort]
+                unfold NameStr.decodeUtf16
+                rw [← hv1]
+                simp only [hsur, and_self, ↓reduceIte]
+                match hm : d.drop (pos + 2), hshort with
+                | [], _ => rfl
+                | [_], _ => rfl
+              | val c2 p2 =>
+                obtain ⟨a2, b2, hd2, hv2, hp2⟩ := bumpU16_val_drop d p1 c2 p2 hb2
+                simp only [hb2] at hs
+                split at hs
+                · simp at hs
+                · simp at hs
+                  obtain ⟨ha, hs2⟩ := hs
+                  subst ha; subst hs2
+                  rw [hp1] at hd2
+                  rw [hd2, hp2, hp1]
+                  conv => rhs; unfold NameStr.decodeUtf16
+                  rw [← hv1]
+                  simp only [hsur, and_self, ↓reduceIte, charOrRep, ← hv2]
+            · rename_i hsur
+              simp at hs
+              obtain ⟨ha, hs2⟩ := hs
+              subst ha; subst hs2
+              rw [hp1]
+              conv => rhs; unfold NameStr.decodeUtf16
+              rw [← hv1]
+              simp only [hsur, ↓reduceIte, charOrRep]
+
+
+/-- the Mac Roman `CharIter` yields exactly what the C18 model `NameStr.decodeMac` decodes -/
+theorem charRun_mac (d : List Nat) (hb : ∀ b ∈ d, b < 256) :
+    ∀ fuel pos evs, pos ≤ d.length → run (charStep .macRoman d) fuel pos = some evs → trapped evs = false →
+      items evs = NameStr.decodeMac (d.drop pos) := by
+  intro fuel
+  induction fuel with
+  | zero => intro pos evs _ h; simp [run] at h
+  | succ f ih =>
+    intro pos evs hp h ht
+    unfold run at h
+    have hspec := charStep_spec .macRoman d pos hp
+    split at h
+    · rename_i s' hs
+      simp at h; subst h
+      simp only [items]
+      unfold charStep at hs
+      split at hs
+      · rw [List.drop_eq_nil_of_le (by omega)]; simp [NameStr.decodeMac]
+      · rename_i hlt
+        simp only [] at hs
+        cases hb8 : bumpU8 d pos with
+        | none =>
+          unfold bumpU8 at hb8
+          split at hb8
+          · rename_i hn
+            rw [List.getElem?_eq_getElem (by omega)] at hn; simp at hn
+          · split at hb8 <;> simp at hb8
+        | trap => simp [hb8] at hs
+        | val c p1 =>
+          simp only [hb8] at hs
+          split at hs <;> simp at hs
+    · simp at h; subst h; simp [trapped] at ht
+    · rename_i s' hs
+      exact absurd (by rw [hs]) hspec.2.2.1
+    · rename_i a s' hs
+      cases hr : run (charStep .macRoman d) f s' with
+      | none => simp [hr] at h
+      | some r =>
+        simp [hr] at h; subst h
+        have hs'le : s' ≤ d.length := by have := hspec.1; rw [hs] at this; exact this
+        have ih' := ih s' r hs'le hr (by simpa [trapped] using ht)
+        simp only [items]
+        rw [ih']
+        unfold charStep at hs
+        split at hs
+        · simp at hs
+        · rename_i hlt
+          simp only [] at hs
+          cases hb8 : bumpU8 d pos with
+          | none => simp [hb8] at hs
+          | trap => simp [hb8] at hs
+          | val c p1 =>
+            obtain ⟨hp1, _, hget⟩ := bumpU8_val d pos c p1 hb8
+            have hc : c < 256 := hb c (List.mem_of_getElem? hget)
+            have hdec := macDecodeT_total c hc
+            simp only [hb8, hdec.1] at hs
+            simp at hs
+            obtain ⟨ha, hs2⟩ := hs
+            subst ha; subst hs2
+            have hlt' : pos < d.length := by omega
+            rw [List.drop_eq_getElem_cons hlt']
+            have : d[pos] = c := by rw [List.getElem?_eq_getElem hlt'] at hget; simpa using hget
+            rw [this, hp1]
+            simp [NameStr.decodeMac, charOrRep, hdec.2]
+
+
 end FontVerif.HandText
